@@ -460,7 +460,10 @@ public:
 	Array& append(const T* p, int n)
 	{
 		int m=length();
+		int own = (p >= _a && p < _a + m) ? int(p - _a) : -1; // p points into this same array
 		resize(m + n);
+		if (own >= 0) // the block may have moved
+			p = _a + own;
 		for (int i=0; i<n; i++)
 			_a[m+i] = p[i];
 		return *this;
